@@ -88,7 +88,8 @@ SmallMenu == {
    B (1950-01-01 00:00:00, 2050-01-01 00:00:00), each d in Deltas and each offset: the time whose
    LOCAL fields are B + d, and the time whose UTC fields are B + d (local = B + d + offset). *)
 Deltas  == {-43200, -3600, -1, 0, 1, 3600, 43200}
-Offsets == {-43200, -18000, -1800, 0, 1800, 18000, 50400}       \* -12:00 -05:00 -00:30 Z +00:30 +05:00 +14:00
+Offsets == {-43200, -18000, -1800, 0, 1800, 18000, 50400,       \* -12:00 -05:00 -00:30 Z +00:30 +05:00 +14:00
+            -59, 30, 1172}                                     \* zones with a sub-minute part: -0:00:59 +0:00:30 +0:19:32
 LocalAt(yb, rel, off) ==        \* local fields = Jan 1 of yb, 00:00:00, plus rel seconds (|rel| < 3 days)
   LET day == IF rel >= 0 THEN rel \div 86400 ELSE -((86399 - rel) \div 86400)
       sod == rel - (day * 86400)
